@@ -132,7 +132,7 @@ class Cluster(Driver):
                         and (i, j) in [tuple(x) for x in cfg.get('stallable', [(a, b) for a in live for b in live])]]
         if 'restart' in faults or cfg.get('late'):
             evs += [('restart', i) for i in range(w.n) if not w.sups[i].alive
-                    and (w.sups[i].incarnation == 0) and max(w.abs_ticks) >= cfg.get('restart_after', 0)]
+                    and (w.sups[i].incarnation < cfg.get('lives', 1)) and max(w.abs_ticks) >= cfg.get('restart_after', 0)]
         if 'isolate' in faults:
             evs += [('rejoin', i) for i in range(w.n) if any(i in c for c in w.cut)
                     and all(frozenset((i, j)) in w.cut for j in range(w.n) if j != i)]
